@@ -1110,6 +1110,10 @@ impl TwoFloat {
             Self::from(0.0)
         } else if self <= -1.0 {
             Self::NAN
+        } else if self.hi <= -0.5 {
+            // 1 + x is computed exactly here; the Newton iteration below loses
+            // all accuracy (and yields NaN) as x approaches -1
+            (1.0 + self).ln()
         } else {
             let mut x = Self::from(libm::log1p(self.hi));
             let mut e = x.exp_m1();
